@@ -13,7 +13,7 @@ import AgeModel.Keys
 import AgeModel.Extracted.Funcs
 import Proofs.Bech32Codec
 import Proofs.GoTieBech32
-import Proofs.GoTieMisc
+import Proofs.GoTieRunes
 namespace AgeModel
 namespace GoTie
 open Extracted
@@ -361,32 +361,6 @@ theorem encode_tie (hrp data : Bytes) :
     simp only [Bech32.hasBadByte_append, hbl, a3, b3, Bool.or_false]
     rfl
 
-/-! ## plugin/encode.go -/
-
-def parseIdErr : Keys.Err → Option Go.Err
-  | .bech32 _ => some ⟨"plugin.ParseIdentity", 0, []⟩
-  | .badType => some ⟨"plugin.ParseIdentity", 1, []⟩
-  | .badName => some ⟨"plugin.ParseIdentity", 2, []⟩
-  | _ => some ⟨"unreachable", 0, []⟩
-
-def parseRcErr : Keys.Err → Option Go.Err
-  | .bech32 _ => some ⟨"plugin.ParseRecipient", 0, []⟩
-  | .badType => some ⟨"plugin.ParseRecipient", 1, []⟩
-  | .badName => some ⟨"plugin.ParseRecipient", 2, []⟩
-  | _ => some ⟨"unreachable", 0, []⟩
-
-theorem allowed_ascii_b : ∀ c : UInt8, Keys.allowed.contains c = true → c < 0x80 := by
-  apply Bech32.forall_u8; decide +kernel
-
-theorem isAscii_of_validName (name : Bytes) (h : Keys.validPluginName name = true) :
-    Go.isAscii name = true := by
-  unfold Keys.validPluginName at h
-  split at h
-  · cases h
-  · simp only [List.all_eq_true] at h
-    simp only [Go.isAscii, List.all_eq_true, decide_eq_true_eq]
-    exact fun b hb => allowed_ascii_b b (h b hb)
-
 theorem encode_fst (hrp data : Bytes) :
     (match Bech32.encode hrp data with
       | .ok s => (s, (none : Option Go.Err))
@@ -394,100 +368,8 @@ theorem encode_fst (hrp data : Bytes) :
   unfold Keys.encodeOrEmpty
   cases Bech32.encode hrp data <;> rfl
 
-theorem encodeIdentity_tie (name data : Bytes) :
-    plugin_EncodeIdentity name data = .ok (Keys.encodeIdentity name data) := by
-  unfold plugin_EncodeIdentity Keys.encodeIdentity
-  simp only [bind, Except.bind, pure, Except.pure, validPluginName_tie]
-  by_cases hv : (!Keys.validPluginName name) = true
-  · rw [if_pos hv, if_pos hv]
-  rw [if_neg hv, if_neg hv]
-  have hv' : Keys.validPluginName name = true := by simpa using hv
-  rw [toUpper_ascii name (isAscii_of_validName name hv'), encode_tie]
-  simp only []
-  rw [encode_fst]
-  rfl
-
-theorem encodeRecipient_tie (name data : Bytes) :
-    plugin_EncodeRecipient name data = .ok (Keys.encodeRecipient name data) := by
-  unfold plugin_EncodeRecipient Keys.encodeRecipient
-  simp only [bind, Except.bind, pure, Except.pure, validPluginName_tie]
-  by_cases hv : (!Keys.validPluginName name) = true
-  · rw [if_pos hv, if_pos hv]
-  rw [if_neg hv, if_neg hv]
-  have hv' : Keys.validPluginName name = true := by simpa using hv
-  rw [toLower_ascii name (isAscii_of_validName name hv'), encode_tie]
-  simp only []
-  rw [encode_fst]
-  rfl
-
 theorem decErr_ne_none (e : Bech32.Err) : (decErr e != none) = true := by
   cases e <;> rfl
-
-theorem hasBadByte_trimPrefix (s p : Bytes) (h : Bech32.hasBadByte s = false) :
-    Bech32.hasBadByte (Go.strings_TrimPrefix s p) = false := by
-  unfold Go.strings_TrimPrefix
-  split
-  · exact hasBadByte_drop _ _ h
-  · exact h
-
-theorem hasBadByte_trimSuffix (s p : Bytes) (h : Bech32.hasBadByte s = false) :
-    Bech32.hasBadByte (Go.strings_TrimSuffix s p) = false := by
-  unfold Go.strings_TrimSuffix
-  split
-  · exact hasBadByte_take _ _ h
-  · exact h
-
-theorem parseIdentity_tie (s : Bytes) :
-    plugin_ParseIdentity s = .ok (match Keys.parseIdentity s with
-      | .ok (n, d) => (n, d, none)
-      | .error e => ([], [], parseIdErr e)) := by
-  unfold plugin_ParseIdentity Keys.parseIdentity
-  simp only [bind, Except.bind, pure, Except.pure, validPluginName_tie]
-  rw [decode_tie]
-  cases hd : Bech32.decode s with
-  | error e =>
-    simp only []
-    rw [if_pos (decErr_ne_none e)]
-    rfl
-  | ok r =>
-    obtain ⟨hrp, data⟩ := r
-    simp only []
-    rw [if_neg (by decide)]
-    obtain ⟨D, d5, hs, _, hbs, _⟩ := Bech32.decode_ok hd
-    have hbh : Bech32.hasBadByte hrp = false := by
-      rw [hs, Bech32.hasBadByte_append] at hbs
-      simpa using (Bool.or_eq_false_iff.mp hbs).1
-    rw [toLower_ascii _ (isAscii_of_noBad _ (hasBadByte_trimSuffix _ _ (hasBadByte_trimPrefix _ _ hbh)))]
-    by_cases h1 : (!Keys.hasPrefix hrp Keys.pfxPlugin || !Keys.hasSuffix hrp Keys.dash) = true
-    · rw [if_pos h1]; exact (if_pos h1).trans rfl
-    · rw [if_neg h1]; refine (if_neg h1).trans ?_
-      by_cases h2 : (!Keys.validPluginName (Bech32.toLower
-          (Keys.trimSuffix (Keys.trimPrefix hrp Keys.pfxPlugin) Keys.dash))) = true
-      · rw [if_pos h2]; exact (if_pos h2).trans rfl
-      · rw [if_neg h2]; exact (if_neg h2).trans rfl
-
-theorem parseRecipient_tie (s : Bytes) :
-    plugin_ParseRecipient s = .ok (match Keys.parseRecipient s with
-      | .ok (n, d) => (n, d, none)
-      | .error e => ([], [], parseRcErr e)) := by
-  unfold plugin_ParseRecipient Keys.parseRecipient
-  simp only [bind, Except.bind, pure, Except.pure, validPluginName_tie]
-  rw [decode_tie]
-  cases hd : Bech32.decode s with
-  | error e =>
-    simp only []
-    rw [if_pos (decErr_ne_none e)]
-    rfl
-  | ok r =>
-    obtain ⟨hrp, data⟩ := r
-    simp only []
-    rw [if_neg (by decide)]
-    by_cases h1 : (!Keys.hasPrefix hrp Keys.pfxAge1) = true
-    · rw [if_pos h1]; exact (if_pos h1).trans rfl
-    · rw [if_neg h1]; refine (if_neg h1).trans ?_
-      by_cases h2 : (!Keys.validPluginName (Keys.trimPrefix hrp Keys.pfxAge1)) = true
-      · rw [if_pos h2]; exact (if_pos h2).trans rfl
-      · rw [if_neg h2]; exact (if_neg h2).trans rfl
 
 end GoTie
 end AgeModel
